@@ -242,6 +242,18 @@ macro_rules! date_op {
                 cmp_dt($loc, concat!("DateTime<Utc>::", $name), &inp, g.map(|v| v.naive_utc()), $exp, $why, $src.t);
             }
         }
+        // ... and with an offset of hours, minutes and seconds, so that the stored UTC value has another
+        // date, minute and second than the wall clock the operation must act on (away from the range
+        // ends: the one-day headroom there is C04's business)
+        let inner = |y: i64| y > rc::MIN_YEAR + 1 && y < rc::MAX_YEAR - 1;
+        if $src.with_dt && inner($src.y) && $exp.map_or(true, |e: Ymd| inner(e.0)) {
+            let off = if $src.n % 2 == 0 { 49_639 } else { -49_639 };
+            if let Some($x) = chrono::FixedOffset::east_opt(off).and_then(|fo| fo.from_local_datetime(&$src.dt).single()) {
+                if let Some(g) = $loc.call(concat!("DateTime<FixedOffset>::", $name), &inp, || $call) {
+                    cmp_dt($loc, concat!("DateTime<FixedOffset>::", $name), &inp, g.map(|v| v.naive_local()), $exp, $why, $src.t);
+                }
+            }
+        }
     }};
 }
 
@@ -878,6 +890,20 @@ macro_rules! time_op {
                     }
                 }
                 cmp_time($loc, concat!("NaiveDateTime::", $name), &inp, g.map(|r| r.time()), $exp, $why);
+            }
+        }
+        if let Some(dt) = $dt.filter(|dt| dt.year() > rc::MIN_YEAR as i32 + 1 && dt.year() < rc::MAX_YEAR as i32 - 1) {
+            // an offset with minutes and seconds: the wall-clock field differs from the stored UTC field
+            let off = if dt.day() % 2 == 0 { 49_639 } else { -49_639 };
+            if let Some($x) = chrono::FixedOffset::east_opt(off).and_then(|fo| fo.from_local_datetime(&dt).single()) {
+                if let Some(g) = $loc.call(concat!("DateTime<FixedOffset>::", $name), &inp, || $call) {
+                    if let Some(r) = &g {
+                        if r.naive_local().date() != dt.date() {
+                            $loc.violation(concat!("C08/DateTime<FixedOffset>::", $name, "/date-not-kept"), json!({"input": inp(), "offset": off, "date_before": dt.date().to_string(), "date_after": r.naive_local().date().to_string()}));
+                        }
+                    }
+                    cmp_time($loc, concat!("DateTime<FixedOffset>::", $name), &inp, g.map(|r| r.naive_local().time()), $exp, $why);
+                }
             }
         }
         if let Some(dt) = $dt.filter(|dt| dt.date() != NaiveDate::MAX) {
